@@ -20,6 +20,7 @@ type vcKube struct {
 	name, queue, group string
 	allowFailure       bool
 	events             []string // nil = absent
+	watch              []string // legacy watchEvent, nil = absent
 	execOnSync, keep   string   // "", "true", "false"
 	include            []string
 }
@@ -40,6 +41,9 @@ func (k vcKube) doc() map[string]interface{} {
 	}
 	if k.events != nil {
 		d["executeHookOnEvent"] = k.events
+	}
+	if k.watch != nil {
+		d["watchEvent"] = k.watch
 	}
 	if k.execOnSync != "" {
 		d["executeHookOnSynchronization"] = k.execOnSync == "true"
@@ -99,6 +103,10 @@ func TestVerifConfConfig(t *testing.T) {
 		{name: "f", execOnSync: "true", keep: "true", group: "g1"},
 		{name: "g", group: "g1", include: []string{"a"}},
 		{name: "h", group: "g2"},
+		{name: "i", watch: []string{"Deleted"}},
+		{name: "j", events: []string{}, watch: []string{"Modified"}},
+		{name: "k", events: []string{"Added"}, watch: []string{"Deleted", "Modified"}},
+		{name: "l", watch: []string{}},
 	}
 	// every ordered pair and some triples of kubernetes bindings, with a schedule and onStartup
 	var sets [][]int
@@ -189,7 +197,9 @@ func TestVerifConfConfig(t *testing.T) {
 			}
 			ev := allEvents
 			if k.events != nil {
-				ev = k.events
+				ev = k.events // executeHookOnEvent has priority, also when it is an empty list
+			} else if k.watch != nil {
+				ev = k.watch
 			}
 			incl := append([]string{}, k.include...)
 			for _, m := range group[k.group] {
@@ -257,5 +267,5 @@ func TestVerifConfConfig(t *testing.T) {
 			report("config-panic", fnLoad, fmt.Sprintf("input %q: panic %v", g, p))
 		}
 	}
-	fmt.Printf("CONF-STATS evaluated=%d scope=real LoadAndValidate on generated documents as JSON and as YAML: every set of 1-2 (and three larger) kubernetes bindings out of 9 variants (name, queue, allowFailure, executeHookOnEvent absent/[Added]/[], executeHookOnSynchronization, keepFullObjectsInMemory, groups, includeSnapshotsFrom) plus two schedules and onStartup: validity, JSON = YAML, declared order, documented defaults, group snapshots; 13 documents that must be rejected; 15 malformed inputs that must not panic\n", evaluated)
+	fmt.Printf("CONF-STATS evaluated=%d scope=real LoadAndValidate on generated documents as JSON and as YAML: every set of 1-2 (and three larger) kubernetes bindings out of 13 variants (name, queue, allowFailure, executeHookOnEvent absent/[Added]/[] alone and combined with the legacy watchEvent, executeHookOnSynchronization, keepFullObjectsInMemory, groups, includeSnapshotsFrom) plus two schedules and onStartup: validity, JSON = YAML, declared order, documented defaults, group snapshots; 13 documents that must be rejected; 15 malformed inputs that must not panic\n", evaluated)
 }
